@@ -712,7 +712,7 @@ func genHistory(t *tape.Tape) []world.Op {
 
 func c10Depth(tier string) int {
 	if tier == "thorough" {
-		return 6
+		return 7
 	}
 	return 5
 }
@@ -786,7 +786,7 @@ func init() {
 		Run: c10Run,
 		Describe: func(tier string, s *report.Stats, cases int) Evidence {
 			return Evidence{
-				Rule: "Cases are call histories on the real encode.Encoder with the 4-state reference automaton (Initial/Styling/Drawing/Error, written from the property text) stepped in lockstep and compared through a Bytes probe after every call. (a) Fault enumeration: for each sampled legal history H (lattice arguments, probes at drawn positions) one out-of-protocol call of each of 7 classes is injected at every position of H; for each such faulted history a Reset (restart) is placed at every later position (all positions when the history has <=14 calls, three drawn ones otherwise) followed by a legal tail that must decode to exactly itself. (b) Exhaustive: every history up to depth 5 (quick) / 6 (thorough) over an abstract alphabet of 16 representative calls, as the property's quantifier asks. (c) Long legal histories with runs of 37-300 identical drawing calls (decode oracle). (d) Seeded histories over the whole alphabet (Reset, observers, resolution flag, legal and illegal calls) with no regard to legality. Every history is run three ways: probed on the zero value, unprobed (probe-free), and probed on an Encoder reset with the default metadata (zero-value). distinct_nontrivial = hash-bitmap count of distinct histories that contain at least one fault or a Reset after the first call.",
+				Rule: "Cases are call histories on the real encode.Encoder with the 4-state reference automaton (Initial/Styling/Drawing/Error, written from the property text) stepped in lockstep and compared through a Bytes probe after every call. (a) Fault enumeration: for each sampled legal history H (lattice arguments, probes at drawn positions) one out-of-protocol call of each of 7 classes is injected at every position of H; for each such faulted history a Reset (restart) is placed at every later position (all positions when the history has <=14 calls, three drawn ones otherwise) followed by a legal tail that must decode to exactly itself. (b) Exhaustive: every history up to depth 5 (quick) / 7 (thorough) over an abstract alphabet of 16 representative calls, as the property's quantifier asks. (c) Long legal histories with runs of 37-300 identical drawing calls (decode oracle). (d) Seeded histories over the whole alphabet (Reset, observers, resolution flag, legal and illegal calls) with no regard to legality. Every history is run three ways: probed on the zero value, unprobed (probe-free), and probed on an Encoder reset with the default metadata (zero-value). distinct_nontrivial = hash-bitmap count of distinct histories that contain at least one fault or a Reset after the first call.",
 				Extra: map[string]interface{}{
 					"fault_kinds_fired":                    s.SortedCounters("fault_"),
 					"histories_driven_on_the_real_encoder": s.Counters["histories_driven"],
